@@ -1,6 +1,7 @@
 package main
 
 import (
+	"os"
 	"golang.org/x/tools/go/ssa"
 )
 
@@ -53,13 +54,48 @@ func (ex *Exec) indexModel(hay, sep Region) *Term {
 
 // uniqueValue asks the solver whether t has exactly one possible value under the path
 // condition; if so the constant is returned (and t == const becomes part of the PC).
+// The outcome is a recorded decision of the path (0 = left symbolic, v+2 = concretised to the
+// signed value v), so that a re-execution from a decision prefix follows exactly the same
+// branches even when the solver's answer would differ this time (time-outs under load).
 func (ex *Exec) uniqueValue(t *Term) (*Term, bool) {
 	c := ex.ctx
 	if t.isConst {
 		return t, true
 	}
+	if ex.pos < len(ex.prefix) {
+		d := ex.prefix[ex.pos]
+		ex.pos++
+		ex.trace = append(ex.trace, d)
+		if d == 0 {
+			return nil, false
+		}
+		k := c.BVConst(uint64(int64(d-2)), t.sort.W)
+		ex.addPC(c.Eq(t, k))
+		return k, true
+	}
+	k, ok := (*Term)(nil), false
+	if os.Getenv("VERIF_NOUNIQUE") == "" {
+		k, ok = ex.uniqueValueSolve(t)
+	}
+	if ok && t.sort.W <= 64 {
+		v := int64(k.cv)
+		if t.sort.W < 64 {
+			v = int64(k.cv << (64 - uint(t.sort.W))) >> (64 - uint(t.sort.W))
+		}
+		if v >= -1 && v < 1<<40 {
+			ex.trace = append(ex.trace, int(v)+2)
+			ex.addPC(c.Eq(t, k))
+			return k, true
+		}
+	}
+	ex.trace = append(ex.trace, 0)
+	return nil, false
+}
+
+func (ex *Exec) uniqueValueSolve(t *Term) (*Term, bool) {
+	c := ex.ctx
 	q := c.Script(ex.pc, []*Term{t})
-	if ex.pool.Check(q, ex.eng.branchMs, 0) != Sat {
+	if ex.pool.Check(q, ex.eng.branchMs, ex.eng.branchSlowMs) != Sat {
 		return nil, false
 	}
 	vals, err := ex.pool.GetValues([]string{c.Inline(t)})
@@ -71,10 +107,9 @@ func (ex *Exec) uniqueValue(t *Term) (*Term, bool) {
 		return nil, false
 	}
 	k := c.BVBig(bv, t.sort.W)
-	if ex.feasible(c.Not(c.Eq(t, k))) != Unsat {
+	if !k.isConst || ex.feasible(c.Not(c.Eq(t, k))) != Unsat {
 		return nil, false
 	}
-	ex.addPC(c.Eq(t, k))
 	return k, true
 }
 
